@@ -2,7 +2,7 @@
     the IR it produces. Every clause is a boolean that the correspondence run
     evaluates on every case (so a clause no real module satisfies would be seen),
     and every clause is used by at least one proof. *)
-From W2W Require Export Gen.
+From W2W Require Export Gen Pipeline.
 
 (** every global's type handle is in range *)
 Definition wf_global_types (m : module) : bool :=
